@@ -31,6 +31,7 @@ type artefacts struct {
 	Graph    string
 	Retains  string
 	Strict   string // messages at the strictest enforcement level, stage code looked up
+	FixInc   string // mro format --includes: text and messages with the include list repaired
 }
 
 func digest(s string) string {
@@ -57,6 +58,14 @@ func produceWith(dir string, c *detCase, use *syntax.Parser) artefacts {
 		a.Format = f
 	} else {
 		a.Format = "ERR " + err.Error()
+	}
+	{
+		var fp syntax.Parser
+		f, err := fp.FormatSrcBytes(top, dir+"/"+c.Top, true, []string{dir})
+		if err != nil {
+			f += "\nERR " + err.Error()
+		}
+		a.FixInc = strings.ReplaceAll(f, dir, "$DIR")
 	}
 	combined, _, ast, err := q.ParseSourceBytes(top, dir+"/"+c.Top, []string{dir}, false)
 	a.Combined = combined
@@ -171,7 +180,8 @@ func Run(args []string) int {
 			a := produce(dir, &c)
 			for _, x := range [][3]string{{"formatted text", first.Format, a.Format}, {"combined source", first.Combined, a.Combined},
 				{"error messages", first.Error, a.Error}, {"call graph", first.Graph, a.Graph}, {"retain order", first.Retains, a.Retains},
-				{"messages at the strictest level with stage code looked up", first.Strict, a.Strict}} {
+				{"messages at the strictest level with stage code looked up", first.Strict, a.Strict},
+				{"formatted text and messages with the include list repaired", first.FixInc, a.FixInc}} {
 				if x[1] != x[2] {
 					viols = append(viols, Violation{c.Id, "differs-between-repetitions: " + x[0], diffAt(x[1], x[2]), c.Files[c.Top]})
 				}
@@ -194,7 +204,7 @@ func Run(args []string) int {
 			}
 		}
 		digests[c.Id] = map[string]string{"format": digest(first.Format), "combined": digest(first.Combined),
-			"error": digest(first.Error), "graph": digest(first.Graph), "retains": digest(first.Retains), "strict": digest(first.Strict),
+			"error": digest(first.Error), "graph": digest(first.Graph), "retains": digest(first.Retains), "strict": digest(first.Strict), "fixinc": digest(first.FixInc),
 			"error_text": first.Error}
 	}
 	// one violation per (case, kind)
